@@ -13,7 +13,8 @@ RULE = ("a case is a generated listing (1-3 sections of one or several contiguou
         "arbitrary registration order (one edit element in eight is a chain of whole-block deletions of 2-4 consecutive blocks, "
         "each with its own retarget_to_proxy flag), patches of instructions and data directives; the input CFG's edges are "
         "added in derivation order or in a generated permutation; "
-        "section bytes after RewritingContext.apply() must equal the bytes of the list-edited listing. "
+        "section bytes after RewritingContext.apply() must equal the bytes of the list-edited listing (with alignment metadata: "
+        "once whole nop/zero runs in front of aligned blocks are removed). "
         "Non-trivial = >=2 effective edits of which two touch the same or physically adjacent blocks, or a "
         "whole-block deletion next to another edit; distinct by spec hash.")
 ASSUMPTIONS = [
@@ -21,7 +22,8 @@ ASSUMPTIONS = [
     "registration orders in which a zero-length insertion is registered after a replace/delete starting at the "
     "same offset are outside the domain (the library's own overlap rule, pinned by "
     "tests/test_rewriting.py::test_conflicting_insertion_replacement); counted as dropped.touching_after",
-    "no alignment tables in this property's generator (alignment padding is judged by C10)",
+    "one case in six carries an alignment table and is judged with C10's padding-aware comparison (whole nops after code / "
+    "zeros after data in front of aligned blocks may appear, nothing else; alignments that held still hold)",
 ]
 
 
@@ -30,7 +32,16 @@ def calibrate():
 
 
 def strategy(tier):
-    return Lm.case_st(tier, scopes=True, pdata=True, ivs=True)
+    from hypothesis import strategies as st
+
+    base = Lm.case_st(tier, scopes=True, pdata=True, ivs=True)
+    # one case in six carries alignment metadata: the only bytes that may appear beyond the edited listing are
+    # whole nops / zeros in front of aligned blocks, and every alignment that held still holds (judged with C10's
+    # padding-aware comparison)
+    al = st.tuples(Lm.case_st(tier, pairs=[("x64", "elf"), ("x64", "pe"), ("arm64", "elf"), ("ia32", "pe")]),
+                   st.lists(st.sampled_from([0, 0, 2, 4, 8, 16]), min_size=1, max_size=8)).map(
+        lambda t: {"k": "align", **t[0], "align": t[1]})
+    return st.one_of(base, base, base, base, base, al)
 
 
 def budget(tier):
@@ -78,6 +89,8 @@ def classes(case, exp):
 
 
 def in_known_class(fid, spec, failure):
+    if spec.get("k") == "align":
+        return False
     allow = bool(spec.get("allow_after_full_delete"))
     case = Lm.Case(spec, allow_after_full_delete=allow)
     if fid == "C01-after-full-delete":
@@ -101,6 +114,14 @@ def _after_full(case):
 
 
 def evaluate(spec):
+    if spec.get("k") == "align":
+        from . import c10
+
+        out = c10._eval_align(spec)
+        for f in out.failures:
+            f.clause = "C01.alignment"
+        out.classes.append("family=alignment-metadata")
+        return out
     out = Outcome()
     allow = bool(spec.get("allow_after_full_delete"))
     r = Lm.execute(spec, allow_after_full_delete=allow)
@@ -129,6 +150,10 @@ def evaluate(spec):
 
 
 def render(spec):
+    if spec.get("k") == "align":
+        from . import c10
+
+        return c10.render(spec)
     try:
         return Lm.describe(Lm.Case(spec, allow_after_full_delete=bool(spec.get("allow_after_full_delete"))))
     except Exception:
